@@ -204,3 +204,32 @@ def run_model_in_coq(entry, args, tag):
         except OSError:
             pass
     return res
+
+
+# ---------------------------------------------------------------- deterministic step budget
+class BudgetExceeded(BaseException):
+    """Raised inside the implementation when a case exceeds its call budget (never wall-clock)."""
+
+
+class budget:
+    """with budget(n): ...   counts Python-level call events; deterministic for a given input."""
+
+    def __init__(self, n):
+        self.n = n
+        self.count = 0
+
+    def _prof(self, frame, event, arg):
+        if event == "call" or event == "c_call":
+            self.count += 1
+            if self.count > self.n:
+                sys.setprofile(None)
+                raise BudgetExceeded("more than %d calls" % self.n)
+
+    def __enter__(self):
+        self.count = 0
+        sys.setprofile(self._prof)
+        return self
+
+    def __exit__(self, *a):
+        sys.setprofile(None)
+        return False
